@@ -53,10 +53,15 @@ pub fn eval(ctx: &mut Context, line: &str) -> Result<QueryReply, QueryError> {
     let expr = text_query::parse_query(&mut iter);
     let res = ctx.eval_query(&expr)?;
     if ctx.save_previous_result {
-        if let QueryReply::Number(ref number_parts) = res {
-            if let Some(ref raw) = number_parts.raw_value {
-                ctx.previous_result = Some(raw.clone());
-            }
+        // Time values are shown as a duration breakdown, but they're
+        // still the numeric result of an expression.
+        let number_parts = match res {
+            QueryReply::Number(ref number_parts) => Some(number_parts),
+            QueryReply::Duration(ref duration) => Some(&duration.raw),
+            _ => None,
+        };
+        if let Some(raw) = number_parts.and_then(|parts| parts.raw_value.as_ref()) {
+            ctx.previous_result = Some(raw.clone());
         }
     }
     Ok(res)
